@@ -271,12 +271,13 @@ Section Ops.
       end
     else Ok (j, t).
 
-  (* fuel = length of the tape: every iteration consumes one draw *)
+  (* fuel = 1 + length of the tape: every iteration consumes one draw, so the fuel cannot run out
+     before the tape does *)
   Definition draw_two (n : nat) (t : tape) : res (nat * nat * tape) :=
     '(i, t1) <- get_idx n t ;;
     '(j, t2) <- get_idx n t1 ;;
     if Nat.ltb 1 n then
-      '(j', t3) <- redraw (length t2) n i j t2 ;; Ok (i, j', t3)
+      '(j', t3) <- redraw (S (length t2)) n i j t2 ;; Ok (i, j', t3)
     else Ok (i, j, t2).
 
   (* ================================================================ Swap 759-776 *)
